@@ -7,18 +7,31 @@ from common import Failure
 from props import _hist as H
 
 ID = "C14"
-GEN = []
+GEN = ["gen_bulk"]
 ALLOWED_AXIOMS = []
 MODEL_INDEPENDENT_OF_PROOFS = True
 TRUSTED = [
     "Coq 8.16.1 kernel + vm_compute (no native_compute)",
-    "hand model coq/Model/Bulk.v of BulkObservables (_differential_yield, the three mid-rapidity loops) on top of "
-    "coq/Model/Histogram.v, tied to the code by this run's correspondence only",
+    "tools/py2coq/gen_bulk.py (fail-closed typed translator, Python ast): regenerates on every run the bodies of "
+    "BulkObservables._differential_yield, dNdy, dNdpT, dNdEta, dNdmT, mid_rapidity_yield, mid_rapidity_mean_pT, "
+    "mid_rapidity_mean_mT as Gallina (Gen/GenBulk.v), their parameter defaults and the method table of ReadOnlyList; "
+    "coq/Model/BulkRt.v gives the meaning of the accepted Python constructs (isinstance on the input domain, indexing, "
+    "range, int/float arithmetic and comparison, for / for-break loops, the Histogram calls = Model/Histogram.v)",
+    "hand model coq/Model/Bulk.v of BulkObservables: PROVED EQUAL, for all arguments, to the regenerated methods "
+    "(C14_source_*), and still run against the real code by this run's correspondence",
+    "hand model coq/Model/Histogram.v of the Histogram class (constructor, add_value, add_histogram, average, "
+    "scale_histogram, bin_width): tied to the code by the correspondence only (C09/C10)",
     "a particle is the observation of the methods the code calls on it (quantity(), pT_abs(), mT()); the harness obtains the "
     "observations by calling the same methods of sparkx.Particle (C08 is about the methods themselves)",
     "numpy primitives / np.sqrt / np.linspace as in C09 and C10; exact rationals instead of IEEE rounding",
 ]
 ASSUMPTIONS = [
+    "tie to the source: input domain of the regenerated methods = bin_properties a tuple (number, number, n) or a list of "
+    "numbers (or None for the public spectra), y_width a number or an object that is neither int nor float, quantity a str; "
+    "all particles are of one class (callable(getattr(p, name)) depends on the name only); the warning-only blocks of "
+    "dNdpT / dNdmT are validated to be effect-free on that domain and dropped; ReadOnlyList is validated to pass "
+    "indexing / len / iteration through, which is what lets the translator read self.particle_objects as the list itself",
+    "the harness tables METHOD_Q / DEFAULT_BINS / DEFAULT_MID are compared with the tables read from the source on every run",
     "'inputs left unmodified' is checked by the correspondence only (identity and data of every particle, before/after)",
     "a quantity that evaluates to NaN makes the differential yields raise ValueError (Histogram.add_value): mirrored by the "
     "model, no claim by the oracle",
@@ -28,7 +41,36 @@ ASSUMPTIONS = [
 
 METHOD_Q = {"dNdy": "rapidity", "dNdpT": "pT_abs", "dNdEta": "pseudorapidity", "dNdmT": "mT"}
 DEFAULT_BINS = {"dNdy": (-2, 2, 11), "dNdpT": (0, 4, 11), "dNdEta": (-2, 2, 11), "dNdmT": (0, 4, 11)}
+DEFAULT_MID = {"y_width": 1.0, "quantity": "rapidity"}
+MID_METHODS = ("mid_rapidity_yield", "mid_rapidity_mean_pT", "mid_rapidity_mean_mT")
 LABELS = {k: f"L{i}" for i, k in enumerate(H.DEFAULT_COLUMNS)}
+
+
+def mid_args(case):
+    """(width, quantity) a mid-rapidity case is evaluated with; `defaults`: the methods are called without arguments"""
+    if case.get("defaults"):
+        return DEFAULT_MID["y_width"], DEFAULT_MID["quantity"]
+    return H.num(case["width"]), case["quantity"]
+
+
+def source_tables_mismatch():
+    """the hand tables of this module against the ones read from the current source (None: equal / not readable)"""
+    try:
+        from py2coq import gen_bulk
+        t = gen_bulk.tables()
+    except Exception:
+        return None            # the translator aborted: reported by the driver
+    got_q = {m: v["quantity"] for m, v in t["yield"].items()}
+    got_b = {m: tuple(v["default"]) if v["default"] is not None else None for m, v in t["yield"].items()}
+    diffs = []
+    if got_q != METHOD_Q:
+        diffs.append(f"quantity per spectrum: source {got_q}, harness {METHOD_Q}")
+    if got_b != DEFAULT_BINS:
+        diffs.append(f"default binning per spectrum: source {got_b}, harness {DEFAULT_BINS}")
+    for m in MID_METHODS:
+        if t["mid"].get(m) != DEFAULT_MID:
+            diffs.append(f"defaults of {m}: source {t['mid'].get(m)}, harness {DEFAULT_MID}")
+    return "; ".join(diffs) or None
 
 
 # ----------------------------------------------------------------------------- particles
@@ -162,9 +204,14 @@ def run_impl(case, workdir=None):
                     except OSError:
                         pass
         else:
-            for name, call in (("yield", lambda: bulk.mid_rapidity_yield(H.num(case["width"]), case["quantity"])),
-                               ("pt", lambda: bulk.mid_rapidity_mean_pT(H.num(case["width"]), case["quantity"])),
-                               ("mt", lambda: bulk.mid_rapidity_mean_mT(H.num(case["width"]), case["quantity"]))):
+            if case.get("defaults"):
+                calls = (("yield", lambda: bulk.mid_rapidity_yield()), ("pt", lambda: bulk.mid_rapidity_mean_pT()),
+                         ("mt", lambda: bulk.mid_rapidity_mean_mT()))
+            else:
+                calls = (("yield", lambda: bulk.mid_rapidity_yield(H.num(case["width"]), case["quantity"])),
+                         ("pt", lambda: bulk.mid_rapidity_mean_pT(H.num(case["width"]), case["quantity"])),
+                         ("mt", lambda: bulk.mid_rapidity_mean_mT(H.num(case["width"]), case["quantity"])))
+            for name, call in calls:
                 try:
                     out[name] = {"value": float(call())}
                 except Exception as e:
@@ -202,7 +249,7 @@ def coq_case(case, got):
             ew = "(Some (Ok " + H.cl(lambda t: "(" + H.cl(lambda s: str(H.labnum(s)), t[0]) + ", " + H.cl(lambda r: H.cl(H.cell, r), t[1]) + ")",
                                       got["write"]["tables"]) + "))"
         return f"(check_yield {ls} true {coq_bins(case)} {evs} {e} {ew})", ok
-    q = case["quantity"]
+    width, q = mid_args(case)
     callable_ = True
     cells = []
     for ev in case["events"]:
@@ -218,7 +265,7 @@ def coq_case(case, got):
 
     def res(r):
         return H.coq_exc(r["exc"]) if "exc" in r else f"(Ok {H.cell(r['value'])})"
-    return (f"(check_mid {C.coq_bool(callable_)} {H.qc(H.num(case['width']))} [{'; '.join(cells)}] "
+    return (f"(check_mid {C.coq_bool(callable_)} {H.qc(width)} [{'; '.join(cells)}] "
             f"{res(got['yield'])} {res(got['pt'])} {res(got['mt'])})"), ok
 
 
@@ -314,6 +361,8 @@ def gen_case(rng):
     if rng.random() < 0.03:
         evs = []
     case = {"kind": "mid", "width": w, "quantity": q, "events": evs}
+    if w == DEFAULT_MID["y_width"] and q == DEFAULT_MID["quantity"] and rng.random() < 0.5:
+        case["defaults"] = True                               # the three methods are called without arguments
     if rng.random() < 0.5:
         # the object has been used before: same width with another flavour, same flavour with another width, a spectrum
         pre = []
@@ -389,10 +438,9 @@ def oracle(case):
         if [r[3] for r in rows] != [float(x) for x in cont]:
             return f"{case['method']}: the written distribution column {[r[3] for r in rows]} differs from the histogram {cont}"
         return None
-    w = H.num(case["width"])
+    w, q = mid_args(case)
     if not w > 0:
         return None
-    q = case["quantity"]
     obs = [[(observe(s, q), observe(s, "pT_abs"), observe(s, "mT")) for s in ev] for ev in case["events"]]
     if any(o[0] is None for ev in obs for o in ev):
         return None
@@ -482,6 +530,11 @@ def correspondence(ctx, model_ok=True):
            "samples": cases[:3], "model_runner": "Eval vm_compute in generated cases files (sharded coqc), comparison by Model/BulkCheck.v",
            "failures": [], "broken": []}
     out["all_cases"] = cases          # the driver runs the property oracle on these as well
+    dist["default_arguments"] = sum(1 for c in cases if c.get("defaults"))
+    mismatch = source_tables_mismatch()
+    if mismatch:
+        out["broken"].append({"what": "the harness tables (which Particle method a spectrum bins, default binnings, default "
+                                      "y_width / quantity) differ from the ones read from the source", "detail": mismatch})
     ok, log = C.make(["Model/BulkCheck.vo"])
     if not ok:
         out["broken"].append({"what": "model Model/Bulk.v / Model/BulkCheck.v does not build", "detail": log[-800:]})
@@ -547,19 +600,83 @@ def shrink(case, fails):
     return cur
 
 
+def _obs(y, pt=1.0, mt=1.5):
+    return {"obs": {"y": y, "pt": pt, "mt": mt}}
+
+
+def probe_cases():
+    """targeted inputs for the constants, comparison operators and branches that tools/py2coq/gen_bulk.py extracts:
+    tried first by search() when the translator aborts or a C14_source_* theorem no longer checks"""
+    out = []
+    eps = 2.0 ** -20
+    # ---- the window -w/2 <= q <= w/2: both bounds inclusive, just outside, both signs, int and float widths, every flavour
+    for w in (1.0, 2, 0.5, 3.0, 4):
+        h = w / 2
+        for q in ("rapidity", "pseudorapidity", "spacetime_rapidity"):
+            evs = [[_obs(h, 1.0, 2.0)], [_obs(-h, 0.5, 1.0), _obs(0.0, 2.0, 3.0)],
+                   [_obs(h + eps, 4.0, 8.0), _obs(0.0, 1.0, 1.0), _obs(-h - eps, 16.0, 32.0)],
+                   [_obs(h - eps, 0.25, 0.5), _obs(-h + eps, 0.75, 1.5), _obs(3 * w, 64.0, 64.0)]]
+            out.append({"kind": "mid", "width": w, "quantity": q, "events": evs})
+            out.append({"kind": "mid", "width": w, "quantity": q, "events": [evs[0]]})
+            out.append({"kind": "mid", "width": w, "quantity": q, "events": [[], evs[1], [], evs[2], []]})
+            out.append({"kind": "mid", "width": w, "quantity": q, "events": [evs[2], evs[0]]})
+    # ---- which quantity is looked up: real particles whose rapidity, pseudorapidity and space-time rapidity differ
+    real = [{"px": 1.0, "py": 0.0, "pz": 1.0, "E": 3.0, "t": 2.0, "z": 1.0},      # y .35, eta .88, eta_s .55
+            {"px": 0.5, "py": 0.0, "pz": -2.0, "E": 2.5, "t": 4.0, "z": -1.0},    # y -1.1, eta -2.1, eta_s -.26
+            {"px": 2.0, "py": 0.0, "pz": 0.0, "E": 2.5, "t": 8.0, "z": 0.5}]
+    for w in (1.0, 2.0, 3.0, 0.5):
+        for q in ("rapidity", "pseudorapidity", "spacetime_rapidity"):
+            out.append({"kind": "mid", "width": w, "quantity": q, "events": [real, [real[2]], [real[0], real[2]]]})
+    # ---- default arguments
+    out.append({"kind": "mid", "width": 1.0, "quantity": "rapidity", "defaults": True,
+                "events": [[_obs(0.5), _obs(-0.5, 2.0, 2.5), _obs(0.75)], [_obs(0.0, 3.0, 3.5), _obs(-1.0)]]})
+    out.append({"kind": "mid", "width": 1.0, "quantity": "rapidity", "defaults": True, "events": [real, [real[2]]]})
+    # ---- the spectra: which method is binned (real particles: y != eta, pT != mT), default / tuple / unequal-width
+    #      binnings, values on every edge, one / several events, empty events first / middle / last
+    for m in ("dNdy", "dNdpT", "dNdEta", "dNdmT"):
+        flav = {"dNdpT": "pt", "dNdmT": "mt"}.get(m, "y")
+        out.append({"kind": "yield", "method": m, "bins": None, "events": [real, [real[2]], real[:2]]})
+        out.append({"kind": "yield", "method": m, "bins": None, "events": [real]})
+        for edges in ([0.0, 1.0, 3.0], [0.0, 0.5, 1.0, 3.0, 4.0], [-2.0, -1.0, 0.0, 2.0]):
+            if flav != "y" and edges[0] < 0:
+                continue
+            vals = edges + [(a + b) / 2 for a, b in zip(edges, edges[1:])] + [edges[0] - 1.0, edges[-1] + 1.0]
+            ps = [{"obs": {"y": v, "pt": abs(v) if flav == "pt" else 1.0, "mt": abs(v) if flav == "mt" else 1.5}} for v in vals
+                  if flav == "y" or v >= 0]
+            b = {"kind": "list", "edges": edges}
+            for evs in ([ps], [ps, ps[:3]], [[], ps, ps[1:4]], [ps[:2], [], ps], [ps, ps[2:], []], [ps[:1], ps[1:2], ps[2:3], ps[3:]]):
+                out.append({"kind": "yield", "method": m, "bins": b, "events": evs})
+        lo = 0.0 if flav != "y" else -2.0
+        ps = [{"obs": {"y": v, "pt": abs(v), "mt": abs(v)}} for v in (lo, lo + 0.5, lo + 1.0, lo + 1.75, lo + 3.0, lo + 4.0)]
+        for n in (2, 4, 8):
+            out.append({"kind": "yield", "method": m, "bins": {"kind": "tuple", "lo": lo, "hi": lo + 4.0, "n": n}, "events": [ps, ps[:2], []]})
+    return out
+
+
 def search(ctx):
     found, n, seen = [], 0, set()
-    for _ in range(300 if ctx.quick else 3000):
-        c = gen_case(ctx.rng)
-        n += 1
+
+    def attempt(c):
         msg = oracle(c)
         if msg and classify(msg) not in seen:
             key = classify(msg)
             seen.add(key)
             small = shrink(c, lambda x: (oracle(x) is not None) and classify(oracle(x)) == key)
             found.append(Failure(small, "property oracle fails on the implementation", key=key, on_impl=oracle(small)))
-            if len(found) >= 4:
-                break
+    for c in probe_cases():
+        n += 1
+        try:
+            attempt(c)
+        except Exception:
+            pass
+        if len(found) >= 4:
+            return found, n
+    for _ in range(300 if ctx.quick else 3000):
+        c = gen_case(ctx.rng)
+        n += 1
+        attempt(c)
+        if len(found) >= 4:
+            break
     return found, n
 
 
@@ -568,8 +685,22 @@ LEVEL_TEXT = ("Theorems (Coq, all event samples / binnings / widths): with sorte
               "e_i <= q < e_i+1) / (N_ev * width_i), it is one well-shaped histogram (so write_to_file is total on it, C10), and the bin "
               "counts sum to the number of in-range particles; mid_rapidity_yield = (particles with -w/2 <= q <= w/2, NaN outside) / N_ev; "
               "the mid-rapidity mean is the average, over the events whose window is non-empty, of the per-event mean over the particles "
-              "in the window - (1/N_ev) sum of per-event means when every window is non-empty. The hand model is run against the "
-              "real code on every run.")
-LEVEL_NOTE = ("Trusted: Coq kernel/vm_compute; hand models Model/Bulk.v + Model/Histogram.v validated by correspondence only; particles as "
-              "observation records; exact rationals instead of IEEE rounding; inputs-unmodified by snapshots only.")
-TECHNIQUE = "Coq proof by induction over events and particles on top of the C09 counting theorem and the C10 averaging theorem; vm_compute correspondence"
+              "in the window - (1/N_ev) sum of per-event means when every window is non-empty. "
+              "Tie to the source (C14_source_*, 13 theorems): the bodies of _differential_yield, dNdy, dNdpT, dNdEta, dNdmT, "
+              "mid_rapidity_yield, mid_rapidity_mean_pT and mid_rapidity_mean_mT are regenerated from BulkObservables.py on every run "
+              "(statement by statement: argument checks and exception classes, tuple/list handling, Histogram(bin_properties), "
+              "1/bin_width, the event and particle loops with their loop-carried variables, the not-after-the-last-event "
+              "add_histogram, average, scale; the window comparison with its operators, the callable test on the first particle of "
+              "the first non-empty event, the counters, the per-event means and which events enter, the final divisions; which "
+              "Particle method each spectrum bins and its default binning; the default y_width / quantity; the read-only wrapper) "
+              "and the hand model is proved EQUAL to them for all arguments, so the property theorems are about what the source "
+              "says now. The hand model is also run against the real code on every run.")
+LEVEL_NOTE = ("Trusted: Coq kernel/vm_compute; the translator gen_bulk.py and the runtime Model/BulkRt.v (meaning of the accepted Python "
+              "constructs); hand model Model/Histogram.v of the Histogram class validated by correspondence only (the BulkObservables "
+              "layer Model/Bulk.v is proved equal to the regenerated source AND corresponded); particles as observation records of one "
+              "class; exact rationals instead of IEEE rounding; inputs-unmodified by snapshots plus the validated read-only wrapper; the "
+              "warning-only blocks of dNdpT/dNdmT are validated effect-free and not translated.")
+TECHNIQUE = ("Coq proof by induction over events and particles on top of the C09 counting theorem and the C10 averaging theorem; "
+             "fail-closed typed AST translation of the method bodies to Gallina + equality proofs model = regenerated source "
+             "(loop simulation lemmas: fold_leftM vs fold_left, range(len) indexing vs structural recursion, for-break vs first "
+             "non-empty event); vm_compute correspondence; targeted failing-input probes for the extracted constants/branches")
